@@ -1,6 +1,7 @@
 package main
 
 import (
+	"regexp"
 	"encoding/json"
 	"flag"
 	"fmt"
@@ -135,7 +136,7 @@ func cmdCheck(args []string) {
 	} else {
 		fmt.Println("queries in", qdir)
 	}
-	timeout := 20
+	timeout := 30 // quick tier: the slowest obligation of the pinned tree takes about 4 s on a loaded machine
 	if thorough {
 		timeout = 90
 	}
@@ -160,7 +161,7 @@ func cmdCheck(args []string) {
 			o.QueryFile = writeQuery(qdir, o.Name, q)
 			first := timeout
 			if len(o.Splits) > 0 && !thorough {
-				first = 6
+				first = 12
 			}
 			o.Res = solve(o.QueryFile, first, *seed, thorough)
 			if (o.Res.Status == "timeout" || o.Res.Status == "unknown") && len(o.Splits) > 0 {
@@ -186,6 +187,7 @@ func cmdCheck(args []string) {
 	}
 	wg.Wait()
 	rep := buildReport(p, rr, obls, *prop, *tier, *seed, *verif, *repo, *verbose)
+	runBounded(p, rep, *prop, thorough, *seed, *verif, *repo)
 	rep.WallS = time.Since(t0).Seconds()
 	writeEvidence(rep, *verif)
 	for _, l := range rep.Lines {
@@ -449,4 +451,67 @@ func mentionsAll(query, term string) bool {
 		}
 	}
 	return true
+}
+
+var boundedDone = regexp.MustCompile(`BOUNDED-DONE cases=(\d+) seed=(-?\d+) failures=(\d+)(.*)`)
+
+// runBounded executes the bounded stand-ins declared for the property. They are
+// labelled bounded in the evidence and never counted among the discharged obligations;
+// a failing case is a concrete input on the real code and is reported as a violation.
+func runBounded(p *Prog, rep *Report, prop string, thorough bool, seed int, verif, repo string) {
+	for _, bd := range p.CS.Bounded {
+		if !contains(bd.Tags, prop) {
+			continue
+		}
+		var src []byte
+		var err error
+		for _, d := range []string{filepath.Join(verif, "bounded"), filepath.Join(filepath.Dir(scenarioDir()), "bounded")} {
+			if src, err = os.ReadFile(filepath.Join(d, bd.Name+".go.txt")); err == nil {
+				break
+			}
+		}
+		entry := map[string]interface{}{"name": bd.Name, "label": "bounded", "stands_in_for": bd.What}
+		if err != nil {
+			entry["outcome"] = "harness file not found"
+			b, _ := json.Marshal(entry)
+			rep.Cov.Bounded = append(rep.Cov.Bounded, b)
+			continue
+		}
+		cases := "6000"
+		if thorough {
+			cases = "300000"
+		}
+		os.Setenv("GOVC_BOUNDED_CASES", cases)
+		if seed != 0 {
+			os.Setenv("VERIF_SEED", strconv.Itoa(seed))
+		}
+		out, rerr := runOverlayTest(p, repo, bd.PkgPath, string(src))
+		m := boundedDone.FindStringSubmatch(out)
+		fails := strings.Count(out, "BOUNDED-FAIL")
+		switch {
+		case m != nil:
+			n, _ := strconv.Atoi(m[1])
+			entry["cases"] = n
+			entry["seed"] = m[2]
+			entry["failures"] = fails
+			entry["bound"] = strings.TrimSpace(m[4])
+			entry["outcome"] = "completed"
+		case rerr != nil:
+			entry["outcome"] = "did not run: " + truncate(out, 600)
+		}
+		if fails > 0 {
+			dir := filepath.Join(verif, "replays", prop)
+			_ = os.MkdirAll(dir, 0o755)
+			path := filepath.Join(dir, "bounded_"+sanitize(bd.Name)+".json")
+			rb, _ := json.MarshalIndent(map[string]interface{}{"property": prop, "obligation": "bounded:" + bd.Name, "kind": "bounded stand-in",
+				"note": "a case of the bounded stand-in fails on the tree under check (concrete failing input; see test_output)", "replay_confirmed": true,
+				"generated_test": string(src), "test_output": truncate(out, 8000)}, "", " ")
+			_ = os.WriteFile(path, append(rb, '\n'), 0o644)
+			rep.Lines = append(rep.Lines, fmt.Sprintf("govc: bounded stand-in %s: %d failing case(s)", bd.Name, fails))
+			rep.Lines = append(rep.Lines, fmt.Sprintf("VIOLATION property=%s replay=%s", prop, path))
+			rep.Violations++
+		}
+		b, _ := json.Marshal(entry)
+		rep.Cov.Bounded = append(rep.Cov.Bounded, b)
+	}
 }
